@@ -30,6 +30,7 @@ func runC06(p *load.Program, r *oblig.Report) {
 	c06RoundTrip(p, r)
 	c06Transport(p, r)
 	c06FetchWatermark(p, r)
+	c06FreshBytes(p, r)
 	// the read lock may only be released when the stream is at a frame boundary (or the connection is closed)
 	newC11(p, r).batchCloseDrains("C06.R2 read lock released only at a frame boundary")
 	// a Conn whose exchange was abandoned mid-response (any error that is not a broker error code) is closed, so the
